@@ -645,6 +645,9 @@ def _fields(b, op):
 def run(ctx):
     r11(ctx)
     if ctx.config in ("all", "fs_iou"):
+        from . import C01
+        C01.r8(ctx)   # the entered ring registry is put back as it was found: a stale registry lets one host's IoUring::drop remove another host's ring
+    if ctx.config in ("all", "fs_iou"):
         r12(ctx)
     if ctx.config in ("all", "fs", "fs_iou"):
         from . import C07
